@@ -43,9 +43,9 @@ RetFlags(e) ==
   \cup F("X01_OnlySharedConnection", r.wire = "shared" => Cardinality(onShared) = Len(cur.cmds))
   \* transports: Close closes the shared connection; DialAndSend closes what it opened; a failed Dial leaves nothing open
   \cup F("X01_CloseClosesShared", r.closes = "shared" => sharedCid \in cur.closed)
-  \cup F("X01_OwnConnectionClosed", (e.op = "DialAndSend" \/ (e.op = "Dial" /\ e.err)) => cur.opened \subseteq cur.closed)
+  \cup F("X01_OwnConnectionClosed", (e.op \in L!OwnOps \/ (e.op = "Dial" /\ e.err)) => cur.opened \subseteq cur.closed)
   \* a successful Dial (and every DialAndSend that is not refused) opens exactly one new transport
-  \cup F("X01_DialOpensConnection", ((e.op = "Dial" /\ ~e.err) \/ (e.op = "DialAndSend" /\ cur.f # "refused")) => Cardinality(cur.opened) = 1)
+  \cup F("X01_DialOpensConnection", ((e.op = "Dial" /\ ~e.err) \/ (e.op \in L!OwnOps /\ cur.f # "refused")) => Cardinality(cur.opened) = 1)
   \cup F("X01_NoForeignClose", (r.closes = "none" /\ e.op # "Dial") => cur.closed = {})
 
 Step ==
